@@ -97,6 +97,24 @@ pub fn cases(seed: u64, n_random: usize) -> Vec<Case> {
             }
         }
     }
+    // faults in the scan itself: command lines that read as empty (zombie, kernel thread, a process
+    // that exited between two reads) or reads that fail with ESRCH.  Whatever the scan meets, the
+    // background thread must publish an answer: delta terminates and renders everything; when delta's
+    // own parent stays readable (mode 2) the answer must be the same as without the fault.
+    for mode in [1i64, 2, 3, 4] {
+        for (gi, parent) in [None, Some(vec!["git", "show", "HEAD:src/sample.rs"])].into_iter().enumerate() {
+            for delay in [0i64, 400] {
+                let mut spec = base(vec!["--no-gitconfig".into(), "--width".into(), "100".into(), "--paging".into(), "never".into()]);
+                spec.stdin = show_input.to_string().into();
+                spec.parent_cmdline = parent.as_ref().map(|p| p.iter().map(|x| x.to_string()).collect());
+                spec.plan.scan_delay_ms = delay;
+                spec.plan.scan_cmdline = mode;
+                let recognisable = mode == 2 && parent.is_some();
+                let group = if recognisable { "piped-0".to_string() } else { format!("scanfault-{}-{}", mode, gi) };
+                out.push(Case { name: format!("scan fault {} ({}), scan takes {} ms", mode, parent.as_ref().map(|p| p.join(" ")).unwrap_or_else(|| "no recognisable parent".into()), delay), spec, expect_exit: 0, tokens: vec![900, 901], group, must_highlight: recognisable });
+            }
+        }
+    }
     let n_fixed = out.len();
     // random delivery schedules / hash seeds on top
     let n0 = out.len();
@@ -118,12 +136,18 @@ pub fn check_case(env: &Env, ctx: &Ctx, c: &Case) -> Option<Violation> {
     check_case_out(env, ctx, c).0
 }
 
+static SCAN_FAULT_RUNS: std::sync::atomic::AtomicU64 = std::sync::atomic::AtomicU64::new(0);
+
 pub fn check_case_out(env: &Env, ctx: &Ctx, c: &Case) -> (Option<Violation>, Vec<u8>) {
     match run(env, &c.spec, &ctx.dir.join("run"), false) {
         Ok(r) => {
             let mut got = r.stdout.clone();
             if let Some(p) = &r.pager_received {
                 got.extend_from_slice(p);
+            }
+            // reach: the planned fault in the scan actually replaced at least one read
+            if r.events.iter().any(|e| e.kind == "SCANFAULT" && e.get("fired") == Some("1")) {
+                SCAN_FAULT_RUNS.fetch_add(1, std::sync::atomic::Ordering::Relaxed);
             }
             (check_result(c, &r), got)
         }
@@ -245,7 +269,10 @@ pub fn main_c20(env: &Env, tier: &str, seed: u64, replay: Option<&str>) -> i32 {
     let mut ev = Evidence::new("C20", tier, seed, "exploration");
     ev.evaluations = cs.len() as u64;
     ev.distinct_nontrivial = cs.len() as u64;
-    ev.rule = "E1 part: one evaluation = one execution of the real binary (real main(), real background thread, real scan of the process table). (a) arguments that look like launchable commands (rg, git, ...) in positions where they are option values or file operands: termination with the expected status and complete rendering; (b) delta started as the child of a process whose command line is `git show HEAD:file` / `git blame file` / `git grep ..` (a copy of /bin/sh under the name git), with the background scan ending before or 900 ms after the first queries (real sleep injected by the shim at the scan's first read) and the input delivered at once or in small chunks: the rendering must be identical for every timing and must show that the caller was recognised. distinct_nontrivial = distinct (argument pattern, hash seed, delivery schedule) cases.".into();
+    ev.rule = "E1 part: one evaluation = one execution of the real binary (real main(), real background thread, real scan of the process table). (a) arguments that look like launchable commands (rg, git, ...) in positions where they are option values or file operands: termination with the expected status and complete rendering; (b) delta started as the child of a process whose command line is `git show HEAD:file` / `git blame file` / `git grep ..` (a copy of /bin/sh under the name git), with the background scan ending before or 900 ms after the first queries (real sleep injected by the shim at the scan's first read) and the input delivered at once or in small chunks: the rendering must be identical for every timing and must show that the caller was recognised; (c) the same with a fault in the scan itself: reads of /proc/<pid>/cmdline by the scanning thread return nothing (zombie, exited process) for every process / every process but delta's parent / only the parent, or fail with ESRCH: delta must terminate and render everything, and with a readable parent give the same rendering as without the fault. distinct_nontrivial = distinct (argument pattern, hash seed, delivery schedule) cases.".into();
+    ev.counters.insert("fault_fired.scan_cmdline_empty_or_esrch_runs".into(), SCAN_FAULT_RUNS.load(std::sync::atomic::Ordering::Relaxed));
+    ev.counters.insert("cases_child_of_git_with_scan_delay".into(), cs.iter().filter(|c| c.group.starts_with("piped-")).count() as u64);
+    ev.counters.insert("cases_scan_fault".into(), cs.iter().filter(|c| c.spec.plan.scan_cmdline > 0).count() as u64);
     ev.violations = reported as u64;
     ev.samples = cs.iter().take(3).map(|c| json!({"name": c.name, "args": c.spec.args})).collect();
     ev.extra.insert("engine".into(), json!("E1-proc"));
